@@ -154,6 +154,11 @@ theorem inv1_step (s : St) (a : Act) (s' : St) (hi : Inv1 s) (h : step s a = som
                sg_mono h5 rfl (fun _ hf => hf) rfl (erase_sub j)⟩
       · cases h
     · cases h
+  | cbMark f d inl =>
+    simp only [step] at h
+    (repeat' split at h) <;> first
+      | (cases h; exact ⟨h1, h2, h3, h4, sg_mono h5 rfl (fun _ hf => hf) rfl (fun x hx => ⟨x, hx, rfl⟩)⟩)
+      | cases h
   | cbPolicy d r =>
     simp only [step] at h
     split at h
